@@ -240,3 +240,66 @@ def table(ctx, config='default'):
         s, probs = summarize(arm)
         out[op] = (s, probs)
     return out
+
+
+def optable(ctx, config='default'):
+    """opcode -> summary (+ which storage the arm touches) for CSA's transfer function"""
+    def build():
+        v = vmx(ctx, config)
+        fn = v['fn']
+        out = {}
+        probs = {}
+        for op, arm in v['arms'].items():
+            s, pr = summarize(arm)
+            probs[op] = pr
+            if s is None:
+                continue
+            callees = set()
+            for r in arm['paths']:
+                for c in r['calls']:
+                    callees.add(c['callee'])
+            s['callees'] = sorted(callees)
+            s['reads_local'] = any(c in ('vm::VM::get_local', 'vm::VM::set_local') for c in callees)
+            g = False
+            for b in arm['region']:
+                for st in fn.blocks[b]['stmts']:
+                    if st['k'] == 'assign':
+                        for pl in (st['place'], st['rv'].get('place')):
+                            if pl and 'globals' in place_fields(pl):
+                                g = True
+            s['reads_global'] = g and 'gc::GC::run' not in callees and bool(s['fetch'])
+            out[op] = s
+        return out, probs
+    return _memo(ctx, 'optable-' + config, build)
+
+
+def operands_decl(ctx):
+    """OpCode -> widths declared by OpCode::operands() (EMX over all variants)"""
+    def build():
+        F = ctx.facts()
+        fn = F.fn('compiler::OpCode::operands')
+        out = {}
+        for op, _ in F.enum_variants(OPCODE):
+            env = {'_1': ('ref', '$p'), '$p': ('enum', OPCODE, op)}
+            res = set()
+            for p in AbsInt(F, fn, env).run():
+                if p.exit != 'return':
+                    res.add(None)
+                    continue
+                v = p.env.get('_0')
+                for _ in range(12):
+                    if v is None:
+                        break
+                    if v[0] == 'ref':
+                        v = p.env.get(v[1])
+                    elif v[0] == 'cast':
+                        v = v[1]
+                    else:
+                        break
+                if v and v[0] == 'agg' and all(x[0] == 'int' for x in v[3]):
+                    res.add(tuple(x[1] for x in v[3]))
+                else:
+                    res.add(None)
+            out[op] = list(next(iter(res))) if len(res) == 1 and None not in res else None
+        return out
+    return _memo(ctx, 'operands_decl', build)
